@@ -15,7 +15,7 @@ RULE = ('virtual file system; every include tree up to the depth / fan-out bound
         'started with a path base, a sub-directory path base, a URL base or without urlFn, with a path / URL / no system '
         'prefix; files log on entry and exit, assign a global, optionally return in the middle; adjacent and separated '
         'include lines. Every fetch is a decision point of the tape with answers {text, missing, fetchFn raises, text '
-        'with a syntax error}; all tapes with <= k non-default answers are explored. Compared with the reference: the '
+        'with a syntax error, an empty file, a comments-only file}; all tapes with <= k non-default answers are explored. Compared with the reference: the '
         'sequence of locations passed to fetchFn (modulo "." segments), logs, globals, error class and the location it '
         'names, child line number of a syntax error. A state is a (tree, root config, tape prefix) node. A tree is '
         'non-trivial when it has at least 2 include edges.')
@@ -33,7 +33,7 @@ ROOTS = [
     {'name': 'no-urlfn', 'base': None, 'sys': None},
 ]
 BROKEN = "systemLog('broken-in')\nzz = (1 +\n"
-FETCH_ANSWERS = 4   # 0 text, 1 missing, 2 raises, 3 syntax error
+FETCH_ANSWERS = 6   # 0 text, 1 missing, 2 raises, 3 syntax error, 4 an empty file, 5 a file of comments and blank lines only
 
 
 def ref_text(form, name):
@@ -121,6 +121,10 @@ def run_case(tree, labels, root, style, early, prefix, which):
             return ('missing', None)
         if choice == 2:
             return ('raises', None)
+        if choice == 4:
+            return ('text', '')
+        if choice == 5:
+            return ('text', '# nothing here\n\n   \n')
         return ('text', BROKEN)
 
     if which == 'impl':
